@@ -24,9 +24,9 @@ MANIFEST = dict(
         "(4) QpMcSimplexDecomp (CS, ATM, ADM, MMR; Model/McSimplex.lean: updateSMO in its three cases incl. solveQuadratic2DTriangle, updateVarsum with its re-computation/snapping rule, deactivateVariable with automatic "
         "deactivateExample, shrink cases 1/2, unshrink, selectWorkingSet/maxGainBox/maxGainSimplex, checkKKT, solve loop): simplex_run_invariants = tables + gradient invariants + mc_simplex_inv "
         "(alpha>=0, 0<=varsum<=C, Sum_p alpha_ip <= C + 1e-14: the constraint up to the slack of the code's own snapping, which the real code does use) for every state reached by QpSolver::solve and by every single operation "
-        "(simplex_ops_preserve; the off-by-one branch of shrink is proved unreachable), simplex_stop_is_kkt; "
+        "(simplex_ops_preserve; the off-by-one branch of shrink is proved unreachable), simplex_stop_is_kkt, simplex_run_renumbers (the simplex loop too only renumbers Q and lin); "
         "(5) bias loop as far as it is logic (Model/McBias.lean): bias_loop_consistent — after ANY sequence of inner solves and performBiasUpdate steps all invariants hold and the linear part, read through the renumbered tables, is "
-        "linear(i,p) - nu-row . (accumulated bias) (LinInv through every operation); "
+        "linear(i,p) - nu-row . (accumulated bias) (LinInv through every operation); bias_loop_consistent_simplex: the same for BiasSolverSimplex over runs of the simplex solve loop; "
         "(6) decision logic generated from CSvmTrainer::train / LinearCSvmTrainer::train: two_class_dispatch, ova_is_binary_per_class, every other formulation uses one of the four table families; "
         "(7) dedicated linear solvers: QpBoxLinear coordinate step (linear_w_inv, linear_box_inv along EVERY schedule, linear_step_gain_nonneg_partial) and QpMcLinear{WW,LLW,ATS,MMR,Reinforced} per-example step "
         "(Model/McLinearMc.lean: calcGradient, solveSub with its inner SMO loop, updateWeightVectors): mc_linear_invariants = w is the formulation's linear map of alpha, 0<=alpha<=C, returned gain >= 0, along EVERY schedule; "
@@ -39,7 +39,8 @@ MANIFEST = dict(
         "recomputed gradient/KKT/objective, alpha->decision-function map, two-class = binary trainer bit for bit, OVA = per-class binary bit for bit, linear kernel vs dedicated linear solver, and re-use of one model object "
         "(k-class then two-class training and vice versa must equal a fresh model); ASan/UBSan."),
   note=TRUST + "PARTIAL. Modelled by hand, not translated: McSmo/McSolve/McSimplex/McBias/McLinear/McLinearMc (tied bit for bit on every run). NOT proved: (a) the objective-gap bound for the SIMPLEX-constrained dual "
-       "(simplex_stop_is_kkt gives KKT(eps) in terms of the tracked varsum; the bound would carry an extra term 1e-14*|gradient| from the snapping) and Renumbered/LinInv for the simplex loop; "
+       "(simplex_stop_is_kkt gives KKT(eps) in terms of the tracked varsum; the bound would carry an extra term 1e-14*|gradient| from the snapping), and NO never-stuck theorem for the simplex loop: it is false on the current code — "
+       "shrink case 2 deactivates a KKT-violating variable whose example's varsum was snapped to 0 (finding F-C16-4, root cause; the model reproduces the resulting livelock bit for bit); "
        "(b) BiasSolver::solve's Rprop rule, its two data-dependent loops and their termination (bias_loop_consistent quantifies over every sequence of steps instead; the whole loop is exercised at trainer level only — F-C16-2, F-C16-4 live there); "
        "(c) QpMcLinear{CS,ATM,ADM} theorems (model + bit-exact tie + oracles only; F-C16-L1 lives there), the ACF/shrinking epoch schedule and the epoch-level stopping rule of QpMcLinear::solve/QpBoxLinear::solve "
        "(theorems quantify over every schedule; uniform_sweep_visits_all, linear_stop_weak, primal_dual_gap of the design are not proved; 'same primal objective as the kernel solver' is a trainer-level oracle); "
@@ -47,8 +48,9 @@ MANIFEST = dict(
        "(e) the time limit of QpSolver::solve is not modelled. linear_step_gain_nonneg is partial (|x_i|^2+reg>0). The driver re-tabulates the state vectors between model operations and between passes of the solve loop "
        "(identity on the valid index ranges; the loop itself is the model's solveBody). Configuration invariance is a theorem about exact arithmetic over a kernel matrix given as a function (C09 owns the cache); PSD of Q is proved for Gram "
        "matrices of explicit features, a hypothesis otherwise; floating-point effects are covered by the correspondence only. For the binary machine (and each one-versus-all machine) with offset a constant shift of the decision values "
-       "between configurations is tolerated (C07 owns bias_in_kkt_interval). Findings: F-C16-L1 (QpMcLinear{CS,ADM,ATM} two-variable step: gain formula / ATM gradient update; validated patch proposed), F-C16-2 "
-       "(multi-class offset solver is trajectory dependent), F-C16-4 (BiasSolverSimplex after an iteration-limited inner solve) — see findings_proposed/C16.md; listed in known_findings.json.",
+       "between configurations is tolerated (C07 owns bias_in_kkt_interval). Findings: F-C16-L1 (QpMcLinear{CS,ADM,ATM} two-variable step: gain formula / ATM gradient update; validated patch proposed), F-C16-4 (QpMcSimplexDecomp::shrink case 2 vs the varsum snapping: the solve loop "
+       "livelocks, with offset BiasSolverSimplex then stops at a non-KKT point; root cause found this round, validated patches F4c + F4b proposed), F-C16-2 (multi-class offset solver is trajectory dependent; no small patch) "
+       "— see findings_proposed/C16.md; listed in known_findings.json.",
   technique="Lean 4 invariant proofs by induction over operation histories and over whole runs of the modelled solver loops (hand-written models) + source-regenerated tables and decision logic (T2) + differential correspondence with the C++ "
             "(exact / bit / toleranced modes, ASan/UBSan) + independent trainer-level property oracles",
   design="§6 C16, §14 C16")
@@ -752,7 +754,7 @@ def run(ctx):
     trainer_sweeps(ctx, exe, 50 if ctx.quick else 150, dispatch_table(drv), tcorp)
     ctx.sample({"theorems": ["M_is_gram_of_nu", "mc_tables_inv", "mc_box_inv", "mc_grad_inv", "solve_run_invariants", "solve_never_stuck_box",
                              "solve_generated_near_optimal", "solve_generated_configuration_invariant", "simplex_run_invariants", "simplex_stop_is_kkt",
-                             "bias_loop_consistent", "decision_map_quadratic", "stopped_configurations_close_decision", "mc_linear_invariants",
+                             "bias_loop_consistent", "bias_loop_consistent_simplex", "simplex_run_renumbers", "decision_map_quadratic", "stopped_configurations_close_decision", "mc_linear_invariants",
                              "two_class_dispatch", "ova_is_binary_per_class", "linear_w_inv", "linear_box_inv", "linear_step_gain_nonneg_partial"]})
 
 
